@@ -11,7 +11,7 @@ CHECKS = {
     ref="DESIGN.md section 6 C01"),
 }
 
-_XH_NOTE = "Trusted: CrossHair 0.0.110 symbolic str/int/container semantics, the dict/set display plugin (vlib/plugin.py), z3 5.1, and the library contract models named in the evidence (each validated by the conformance pre-flight and by replaying every sampled solver witness on the real, unmodelled stack)."
+_XH_NOTE = "Trusted: CrossHair 0.0.110 symbolic str/int/container semantics, the dict/set display plugin (vlib/plugin.py), z3 5.1, and the library contract models named in the evidence (each validated by the conformance pre-flight and by replaying every sampled solver witness on the real, unmodelled stack). Secondary net, not the deciding step: every run also replays the committed witness corpus (corpus/<id>.json, solver-generated on the unchanged tree) on the real stack."
 CHECKS["C03"] = dict(
     technique="bounded symbolic execution of the real two-collection search code (symdel seqs2 / SymdelDB.lookup / LookupDB.lookup) with CrossHair + z3; database histories via one inductive step (lookup leaves the index unchanged)",
     text="Per shape (1-3 references x 1-3 queries, lengths <=3 quick / <=4 thorough, max_edits<=3) the real lookup code runs on free symbolic strings; the assertion (exact triplet set, query/reference orientation, equal-position pairs, index unchanged by a lookup, second lookup equals a fresh search) is confirmed on every path or refuted with a concrete input that is replayed on the real stack.",
@@ -44,7 +44,7 @@ CHECKS["C14"] = dict(
     note=_XH_NOTE + " Floats are reals.",
     ref="DESIGN.md section 6 C14")
 
-_SMT_NOTE = "Trusted: the operator-overloading tracer (vlib/smt.py, ~300 lines), z3 5.1 (QF_NRA/NIA), NumPy's object-array dispatch to element operators; reals stand in for floats; uninterpreted functions for log / non-integer powers. Every counterexample is replayed on the real function with concrete numbers."
+_SMT_NOTE = "Trusted: the operator-overloading tracer (vlib/smt.py, ~300 lines), z3 5.1 (QF_NRA/NIA), NumPy's object-array dispatch to element operators; reals stand in for floats; uninterpreted functions for log / non-integer powers. Every counterexample is replayed on the real function with concrete numbers. Secondary net, not the deciding step: every run also replays the committed witness corpus (corpus/<id>.json, solver-generated on the unchanged tree) on the real stack."
 CHECKS["C02"] = dict(engine="SMT+XH",
     technique="symbolic execution of the real pc / pc_n / pc_joint: integer labels through REAL NumPy under a fork-on-branch tracer (z3), count vectors as symbolic integers/reals, tables of free strings with symbolic missing cells through pandas/NumPy contract models (CrossHair + z3)",
     text="For N <= 5 (6 thorough) symbolic labels every way np.unique / intersect1d can order and group them is a path; on each path z3 shows the returned float equals (#coinciding ordered pairs)/(N(N-1)) (resp. cross pairs/(N1 N2)), lies in [0,1] and equals pc_n of the multiplicities. pc_n's closed form is decided for K <= 6 symbolic counts. Tables (2-3 rows x 1-3 columns, free strings or missing): rows coincide iff all columns agree; pc_joint on the selected columns returns the same number; the legacy tuple input goes through the same path.",
